@@ -8,6 +8,13 @@ Case kinds (all JSON-serialisable):
 * ``big``       the same on one generated table longer than BATCH_SIZE (batches below table length).
 * ``roundtrip`` a DataFrame of Python values -> ``.arrow(size)`` -> ``DataFrame.from_arrow`` -> rows,
                 column names.  Model: ``Arrow.roundtripRows``.
+* ``seq``       ONE frame (lazily backed by the Arrow iterator / by a generator, or eager) and a history of calls on
+                it: ``arrow(size)``, ``pandas(size)``, len/rowcount/shape/iteration, ``head``, cursor fetches,
+                ``append``.  Every conversion and observation is judged against the rows the frame holds.
+                Model: ``Arrow.run`` (Model/ArrowFrame.lean).
+* ``schema``    several columns in one schema, Orso -> Arrow -> Orso (schema converters / from_arrow's own
+                schema extraction).  Model: ``forths``.
+* ``iter`` with ``via: iterator``: ``_RowsIterator`` constructed directly with an explicit batch size and limit.
 * ``type``      FlatColumn(type, element_type, precision, scale) -> ``arrow_field`` ->
                 ``FlatColumn.from_arrow`` (also through the schema-level converters).  Model:
                 ``Arrow.arrowField`` / ``Arrow.fromArrowField`` over the generated tables.
@@ -297,12 +304,14 @@ def cell_ok(exp, got):
 
 def classify_cell(ctype, exp, got, column_has_null, column_has_nested_null=False):
     """Name the way a cell differs (used as the failure clause)."""
-    if ctype in INT_TYPES and isinstance(exp, int) and isinstance(got, float) and column_has_null:
+    if ctype in INT_TYPES and isinstance(exp, int) and not isinstance(exp, bool) and isinstance(got, float) \
+            and column_has_null and got == float(exp):
+        # exactly the float conversion of that integer (inexact above 2**53) - any other float is a new failure
         return "integer cells of a column containing a null come back as floats"
     if ctype.startswith("list<") and isinstance(exp, list) and isinstance(got, list) and len(exp) == len(got) \
             and ctype[5:-1] in INT_TYPES + FLOAT_TYPES and column_has_nested_null:
         rest_ok = all((a is None and _isnan(b)) or cell_ok(a, b)
-                      or (isinstance(a, int) and isinstance(b, float) and not isinstance(a, bool))
+                      or (isinstance(a, int) and isinstance(b, float) and not isinstance(a, bool) and b == float(a))
                       for a, b in zip(exp, got))
         if rest_ok:
             return "numeric list cells of a column with a null element come back as floats with NaN"
@@ -460,12 +469,24 @@ def run_iter_impl(case, tables, process_table=None):
             rows = [[canon(p[i]) for p in pys] for i in range(table.num_rows)]
             return {"rows": rows, "names": list(table.column_names), "arrow_rows": table.num_rows,
                     "nullable": [bool(c.nullable) for c in schema.columns]}
+        elif via == "iterator":
+            # `_RowsIterator` driven directly with an explicit batch size and limit (the way from_arrow
+            # builds it), so that every batch size above and below the table lengths is exercised cheaply
+            it0, schema = oc.from_arrow(list(tables))
+            try:
+                it = type(it0)(tables=iter(list(tables)), row_factory=it0.row_factory, batch_size=case["batch"],
+                               max_size=float("inf") if size is None else size)
+            except (TypeError, AttributeError) as e:
+                return {"unavailable": "%s: %s" % (type(e).__name__, str(e)[:120])}
+            rows = [[canon(c) for c in r] for r in it]
+            names = list(schema.column_names) if schema else []
         else:
             it, schema = oc.from_arrow(arg, size) if size is not None else oc.from_arrow(arg)
             rows = [[canon(c) for c in r] for r in it]
             names = list(schema.column_names) if schema else []
         nullable = [bool(c.nullable) for c in schema.columns] if schema else []
-        return {"rows": rows, "names": names, "nullable": nullable}
+        return {"rows": rows, "names": names, "nullable": nullable,
+                "coltypes": [col_enc(c)[1:5] for c in schema.columns] if schema else []}
     except InfraError:
         raise
     except Exception as e:
@@ -517,6 +538,9 @@ def iter_oracle(case, tables, out):
     if "lazy_arrow_raised" in out:
         obs.append("lazy-arrow-raised:" + out["lazy_arrow_raised"].split(":")[0])
         return []
+    if "unavailable" in out:
+        obs.append("iterator-class-not-constructible-directly")  # a refactor of the class: from_arrow still covers it
+        return []
     size = case.get("size")
     exp = mirror_rows(expected_rows_of(tables), size)
     got = out["rows"]
@@ -556,6 +580,17 @@ def iter_oracle(case, tables, out):
         want = [bool(f.nullable) for f in tables[0].schema]
         if out["nullable"] != want:
             fails.append(("nullability not carried over from the Arrow fields", {"got": out["nullable"], "expected": want}))
+        # a decimal128(p, s) field with 1 <= p <= 38 is the image of DECIMAL(p, s) under arrow_field
+        # (C11.arrow_decimal_exact), so it has to come back as DECIMAL(p, s) - also when it is the second
+        # or third decimal type of the table
+        for j, col in enumerate(cols):
+            if col["type"].startswith("decimal128(") and j < len(out.get("coltypes", [])):
+                pp, ss = [int(x) for x in col["type"][len("decimal128("):-1].split(",")]
+                got = out["coltypes"][j]
+                if got[0] != "DECIMAL" or (got[2], got[3]) != (pp, ss):
+                    fails.append(("DECIMAL precision/scale not preserved by the Arrow type mapping",
+                                  {"col": j, "arrow": col["type"], "back": got}))
+                    break
     return fails
 
 
@@ -579,10 +614,25 @@ def iter_model_line(case, tables):
         # from_arrow (no size) then arrow(size): the rows of all tables, then to_arrow's limit
         names = list(tables[0].column_names)
         return "C11 roundtrip " + wire.line(names, [r for t in enc_tables for ch in t for r in ch], case.get("size"))
+    if case.get("via") == "iterator":
+        return "C11 iterb " + wire.line(enc_tables, case.get("size"), case["batch"])
     return "C11 iter " + wire.line(enc_tables, case.get("size"))
 
 
 # ---- big tables
+
+
+def batch_constant():
+    """BATCH_SIZE as extracted from the working tree's from_arrow on this run (pinned 10000 if not found)."""
+    import json
+
+    try:
+        from ..extract import GEN_DIR
+
+        v = json.load(open(os.path.join(GEN_DIR, "generated.json"))).get("arrow.BATCH_SIZE", 10000)
+        return int(v)
+    except Exception:
+        return 10000
 
 
 def big_case_tables(case):
@@ -668,6 +718,331 @@ def roundtrip_oracle(case, out, rows):
 
 def roundtrip_model_line(case, rows):
     return "C11 roundtrip " + wire.line(list(case["names"]), [[canon(c) for c in r] for r in rows], case.get("size"))
+
+
+# ---- one frame used more than once (`seq`)
+
+SEQ_SOURCES = ("from_arrow", "from_arrow_gen", "generator", "list")
+SEQ_OBSERVERS = ("len", "rowcount", "shape", "iter")
+SEQ_OPS = ("arrow", "pandas", "head", "fetchone", "fetchmany", "fetchall", "append", "names") + SEQ_OBSERVERS
+ARRAYSIZE = 100  # DataFrame.arraysize, what fetchmany() without a size fetches
+
+
+def seq_frame(case, tables):
+    """The frame a `seq` case starts from: lazily backed by the Arrow iterator (`from_arrow`, tables given
+    as a list or as a generator), lazily backed by a plain generator of tuples, or eager (a list)."""
+    from orso import DataFrame
+
+    src = case["source"]
+    if src == "from_arrow":
+        return DataFrame.from_arrow(list(tables))
+    if src == "from_arrow_gen":
+        return DataFrame.from_arrow((t for t in tables))
+    names = [c["name"] for c in case["cols"]]
+    pyrows = []
+    for t in tables:
+        cols = [t.column(i).to_pylist() for i in range(t.num_columns)]
+        pyrows += [tuple(c[i] for c in cols) for i in range(t.num_rows)]
+    if src == "generator":
+        return DataFrame(rows=(r for r in pyrows), schema=names)
+    return DataFrame(rows=list(pyrows), schema=names)
+
+
+def _canon_rows(rows):
+    return [[canon(c) for c in r] for r in rows]
+
+
+def run_seq_impl(case, tables):
+    """Run the history on one frame -> list of per-call outputs (dicts)."""
+    from orso import DataFrame
+
+    try:
+        df = seq_frame(case, tables)
+    except InfraError:
+        raise
+    except Exception as e:
+        return [{"raised": "building the frame: %s: %s" % (type(e).__name__, str(e)[:160])}]
+    outs = []
+    for op in case["ops"]:
+        k = op[0]
+        try:
+            if k == "arrow":
+                t = df.arrow() if op[1] is None else df.arrow(op[1])
+                pys = [t.column(j).to_pylist() for j in range(t.num_columns)]
+                back = DataFrame.from_arrow(t)
+                outs.append({"table": [[canon(p[i]) for p in pys] for i in range(t.num_rows)],
+                             "names": list(t.column_names), "num_rows": t.num_rows,
+                             "back": _canon_rows(back), "back_names": list(back.column_names)})
+            elif k == "pandas":
+                pdf = df.pandas() if op[1] is None else df.pandas(op[1])
+                outs.append({"ids": [int(x) for x in pdf.iloc[:, 0].tolist()], "names": [str(c) for c in pdf.columns],
+                             "num_rows": len(pdf)})
+            elif k == "len":
+                outs.append({"n": len(df)})
+            elif k == "rowcount":
+                outs.append({"n": df.rowcount})
+            elif k == "shape":
+                outs.append({"n": df.shape[0], "w": df.shape[1]})
+            elif k == "iter":
+                outs.append({"rows": _canon_rows(df)})
+            elif k == "names":
+                outs.append({"names": list(df.column_names)})
+            elif k == "head":
+                outs.append({"rows": _canon_rows(df.head(op[1]))})
+            elif k == "fetchone":
+                r = df.fetchone()
+                outs.append({"rows": [] if r is None else _canon_rows([r])})
+            elif k == "fetchmany":
+                outs.append({"rows": _canon_rows(df.fetchmany() if op[1] is None else df.fetchmany(op[1]))})
+            elif k == "fetchall":
+                outs.append({"rows": _canon_rows(df.fetchall())})
+            elif k == "append":
+                df.append(tuple(op[1]))
+                outs.append({"rows": []})
+            else:
+                raise InfraError("unknown seq op %r" % (op,))
+        except InfraError:
+            raise
+        except Exception as e:
+            outs.append({"raised": "%s: %s" % (type(e).__name__, str(e)[:160])})
+    return outs
+
+
+def seq_mirror(all_rows, case, fetch_takes=True, outs=None):
+    """The specification of a history, written out (implementation and Lean model out of the picture).
+    `fetch_takes=False` is the other reading of a fetch on a still-lazy frame (the cursor does not take rows
+    out of the frame); `outs`: the implementation's outputs, only to see whether an `append` was refused.
+
+    The rows a frame holds are its source's rows; `append` adds one to an eager frame; a cursor fetch on a
+    frame that is *still lazy* takes the fetched rows out of it (the cursor is the row source - the reading
+    `C11.lazy_fetch_takes_rows` documents); nothing else changes them.  Every conversion returns the rows
+    held at that moment, cut to its size; every observation sees all of them.
+    -> (list of expected outputs, valid?)  An output is ("table", rows) | ("rows", rows) | ("names",) | ("error",)."""
+    rows = list(all_rows)
+    lazy = case["source"] != "list"
+    cursor = None if lazy else list(rows)  # eager: the rows the cursor has still to deliver
+    appended = False
+    exp, valid = [], True
+    for i, op in enumerate(case["ops"]):
+        k = op[0]
+        if k in ("arrow", "pandas"):
+            if lazy:
+                lazy, cursor = False, []
+            size = op[1]
+            exp.append(("table", rows if size is None or size < 0 else rows[:size]))
+        elif k in SEQ_OBSERVERS:
+            if lazy:
+                lazy, cursor = False, []
+            exp.append(("rows", list(rows)))
+        elif k == "names":
+            exp.append(("names",))
+        elif k == "head":
+            if lazy:
+                lazy, cursor = False, []
+            exp.append(("rows", rows[:op[1]]))
+        elif k in ("fetchone", "fetchmany", "fetchall"):
+            n = 1 if k == "fetchone" else (None if k == "fetchall" else (ARRAYSIZE if op[1] is None else op[1]))
+            if lazy:
+                got = rows if n is None else rows[:n]
+                if fetch_takes:
+                    rows = [] if n is None else rows[n:]
+                exp.append(("rows", got))
+            elif appended:
+                exp.append(("error",))
+            else:
+                got = cursor if n is None else cursor[:n]
+                cursor = [] if n is None else cursor[n:]
+                exp.append(("rows", got))
+        elif k == "append":
+            if lazy:
+                valid = False  # `_rows.append` on an iterator raises: not generated
+                exp.append(("error",))
+            elif outs is not None and i < len(outs) and "raised" in outs[i]:
+                exp.append(("error",))  # the frame refused the row (what append accepts is C05's subject)
+            else:
+                rows = rows + [[canon(c) for c in op[1]]]
+                appended = True
+                exp.append(("rows", []))
+        else:
+            valid = False
+            exp.append(("error",))
+    return exp, rows, valid
+
+
+def seq_lazy_fetch_at(case):
+    """Index of the first cursor fetch made while the frame is still lazy, or None."""
+    lazy = case["source"] != "list"
+    for i, op in enumerate(case["ops"]):
+        if op[0] in ("fetchone", "fetchmany", "fetchall") and lazy:
+            return i
+        if op[0] in ("arrow", "pandas", "head") or op[0] in SEQ_OBSERVERS:
+            lazy = False
+    return None
+
+
+def seq_model_ops(case):
+    """The calls as the Lean model takes them (`names` has no model counterpart: it reads no rows)."""
+    out = []
+    for op in case["ops"]:
+        k = op[0]
+        if k in ("arrow", "pandas"):
+            out.append(["arrow", op[1]])
+        elif k in SEQ_OBSERVERS:
+            out.append(["observe"])
+        elif k == "head":
+            out.append(["head", op[1]])
+        elif k == "fetchone":
+            out.append(["fetch", 1])
+        elif k == "fetchmany":
+            out.append(["fetch", ARRAYSIZE if op[1] is None else op[1]])
+        elif k == "fetchall":
+            out.append(["fetch", None])
+        elif k == "append":
+            out.append(["append", [canon(c) for c in op[1]]])
+    return out
+
+
+def seq_model_line(case, tables):
+    names = [c["name"] for c in case["cols"]]
+    enc_tables = []
+    for t in tables:
+        cols = [t.column(i) for i in range(t.num_columns)]
+        pys = [c.to_pylist() for c in cols]
+        chunks, pos = [], 0
+        for ch in cols[0].chunks:
+            chunks.append([[canon(p[i]) for p in pys] for i in range(pos, pos + len(ch))])
+            pos += len(ch)
+        enc_tables.append(chunks)
+    if case["source"] in ("from_arrow", "from_arrow_gen"):
+        return "C11 seq " + wire.line(names, "arrow", enc_tables, seq_model_ops(case))
+    rows = [r for t in enc_tables for ch in t for r in ch]
+    return "C11 seq " + wire.line(names, "gen" if case["source"] == "generator" else "list", rows, seq_model_ops(case))
+
+
+def _rows_same(exp, got):
+    return got is not None and len(exp) == len(got) and all(
+        len(a) == len(b) and all(cell_ok(x, y) for x, y in zip(a, b)) for a, b in zip(exp, got))
+
+
+SEQ_CLAUSE_CONV = "a conversion in a history of calls on one frame does not return the frame's rows cut to size"
+SEQ_CLAUSE_HOLD = "a frame does not hold one row per source row, in order, after a history of calls on it"
+
+
+def seq_oracle(case, tables, outs):
+    """The property on the implementation's own outputs: every conversion (`arrow(size)`, also through
+    `pandas(size)`) returns the rows the frame holds cut to its size with the frame's column names, and comes
+    back from Arrow as those rows; every observation (len/rowcount/shape/iteration) sees every row."""
+    if len(outs) != len(case["ops"]):
+        return [("arrow()/from_arrow raised", {"error": outs[-1].get("raised") if outs else "no output"})]
+    all_rows = expected_rows_of(tables)
+    fails = _seq_oracle_reading(case, outs, seq_mirror(all_rows, case, True, outs)[0])
+    if fails and seq_lazy_fetch_at(case) is not None:
+        # A cursor fetch on a frame that is still lazy: the statement does not say whether the fetched rows
+        # stay in the frame.  Today they do not (cursor and row source are one object); a frame whose cursor
+        # is independent of its rows is as acceptable - but then consistently so for the rest of the history.
+        if not _seq_oracle_reading(case, outs, seq_mirror(all_rows, case, False, outs)[0]):
+            outs[0].setdefault("obs", []).append("seq-lazy-fetch-leaves-the-rows-in-the-frame")
+            return []
+    return fails
+
+
+def _seq_oracle_reading(case, outs, exp):
+    names = [c["name"] for c in case["cols"]]
+    fails = []
+    for i, (op, e, o) in enumerate(zip(case["ops"], exp, outs)):
+        k = op[0]
+        judged = k in ("arrow", "pandas") or k in SEQ_OBSERVERS
+        if not judged:
+            continue
+        if "raised" in o:
+            fails.append(("arrow()/from_arrow raised", {"step": i, "op": op, "error": o["raised"]}))
+            break
+        if k == "arrow":
+            want = e[1]
+            bad = None
+            if not _rows_same(want, o["table"]) or o["num_rows"] != len(want):
+                bad = "table"
+            elif not _rows_same(want, o["back"]):
+                bad = "rows read back from the table"
+            elif o["names"] != names or o["back_names"] != names:
+                bad = "column names"
+            if bad:
+                fails.append((SEQ_CLAUSE_CONV, {"step": i, "op": op, "what": bad, "expected_rows": len(want),
+                                                "got_rows": o["num_rows"], "got_first": (o["table"] or [None])[0],
+                                                "expected_first": (want or [None])[0]}))
+                break
+        elif k == "pandas":
+            want = e[1]
+            if o["ids"] != [r[0] for r in want] or o["num_rows"] != len(want) or o["names"] != names:
+                fails.append((SEQ_CLAUSE_CONV, {"step": i, "op": op, "what": "pandas(size)", "expected_rows": len(want),
+                                                "got_rows": o["num_rows"]}))
+                break
+        else:
+            want = e[1]
+            got_n = o["n"] if "n" in o else len(o["rows"])
+            if got_n != len(want) or ("rows" in o and not _rows_same(want, o["rows"])):
+                fails.append((SEQ_CLAUSE_HOLD, {"step": i, "op": op, "expected_rows": len(want), "got_rows": got_n}))
+                break
+    return fails
+
+
+def seq_impl_matches(case, outs, mirror):
+    """Does every output of the implementation that reads rows (conversions, observations, `head`) equal the
+    written-out specification?  (Decides whether model != mirror is the harness's fault.)"""
+    if len(outs) != len(case["ops"]):
+        return False
+    for op, e, o in zip(case["ops"], mirror, outs):
+        k = op[0]
+        if k in ("fetchone", "fetchmany", "fetchall", "append", "names"):
+            continue
+        if "raised" in o:
+            return False
+        if k == "arrow" and not (_rows_same(e[1], o["table"]) and _rows_same(e[1], o["back"])):
+            return False
+        if k == "pandas" and o["ids"] != [r[0] for r in e[1]]:
+            return False
+        if k in ("len", "rowcount", "shape") and o["n"] != len(e[1]):
+            return False
+        if k in ("iter", "head") and not _rows_same(e[1], o["rows"]):
+            return False
+    return True
+
+
+def seq_agrees(case, outs, mouts, mfinal):
+    """Correspondence: every output of the implementation against the Lean model's (`step`), call by call."""
+    names = [c["name"] for c in case["cols"]]
+    mi = 0
+    stop = seq_lazy_fetch_at(case)
+    for i, (op, o) in enumerate(zip(case["ops"], outs)):
+        k = op[0]
+        if stop is not None and i >= stop:
+            return True  # what a fetch on a lazy frame does to it is not C11's to fix (two readings, see seq_oracle)
+        if k == "names":
+            if o.get("names") != names:
+                return False
+            continue
+        m = mouts[mi]
+        mi += 1
+        if k == "append" and "raised" in o:
+            return True  # the frame refused the row: what append accepts is C05's subject
+        if k in ("fetchone", "fetchmany", "fetchall", "append"):
+            continue  # the cursor's own outputs are C04's subject
+        if "raised" in o or m[0] == "error":
+            return False
+        if k == "arrow":
+            if m[0] != "table" or m[1] != o["names"] or m[2] != o["num_rows"] or not _rows_same(m[3], o["table"]) \
+                    or not _rows_same(m[3], o["back"]):
+                return False
+        elif k == "pandas":
+            if m[0] != "table" or m[2] != o["num_rows"] or [r[0] for r in m[3]] != o["ids"]:
+                return False
+        elif k in ("len", "rowcount", "shape"):
+            if m[0] != "rows" or len(m[1]) != o["n"]:
+                return False
+        else:
+            if m[0] != "rows" or not _rows_same(m[1], o["rows"]):
+                return False
+    return True
 
 
 # ---- column typing
@@ -770,6 +1145,66 @@ def type_oracle(case, fenc, back):
     return fails
 
 
+def schema_col_case(col):
+    """A column of a `schema` case as a `type` case (what the typing clause is evaluated on)."""
+    return {"kind": "type", "type": col["type"], "elem": col.get("elem"), "p": col.get("p"), "s": col.get("s"),
+            "name": col["name"], "nullable": col.get("nullable", True)}
+
+
+def run_schema_impl(case):
+    """Several columns in ONE schema, Orso -> Arrow -> Orso, through the schema-level converters
+    (`via: schema`, optionally with `use_identities`) or through from_arrow on an empty table of the Arrow
+    schema (`via: table`, the call site converters.from_arrow has of its own).
+    -> (list of field encodings, list of column encodings) or ({"raised": …}, None)."""
+    import orso.converters as oc
+    from orso.schema import FlatColumn, RelationSchema, convert_arrow_schema_to_orso_schema, \
+        convert_orso_schema_to_arrow_schema
+
+    cols = []
+    for c in case["cols"]:
+        kw = {}
+        if c.get("p") is not None:
+            kw["precision"] = c["p"]
+        if c.get("s") is not None:
+            kw["scale"] = c["s"]
+        if c.get("elem") is not None:
+            kw["element_type"] = _orso_type(c["elem"])
+        cols.append(FlatColumn(name=c["name"], type=_orso_type(c["type"]), nullable=c.get("nullable", True), **kw))
+    try:
+        sch = RelationSchema(name="t", columns=cols)
+        asch = convert_orso_schema_to_arrow_schema(sch, use_identities=True) if case.get("identities") \
+            else convert_orso_schema_to_arrow_schema(sch)
+        fencs = [[f.name, arrow_ty_enc(f.type), bool(f.nullable)] for f in asch]
+        if case.get("via") == "table":
+            _, back_schema = oc.from_arrow(asch.empty_table())
+        else:
+            back_schema = convert_arrow_schema_to_orso_schema(asch)
+        return fencs, [col_enc(c) for c in back_schema.columns]
+    except InfraError:
+        raise
+    except Exception as e:
+        return {"raised": "%s: %s" % (type(e).__name__, str(e)[:160])}, None
+
+
+def schema_oracle(case, fencs, backs):
+    if backs is None:
+        return [("arrow_field/from_arrow raised", {"error": fencs["raised"]})]
+    fails = []
+    if len(backs) != len(case["cols"]):
+        return [("Orso type not preserved by the Arrow type mapping", {"columns": len(backs), "expected": len(case["cols"])})]
+    for j, (c, f, b) in enumerate(zip(case["cols"], fencs, backs)):
+        for cl, d in type_oracle(schema_col_case(c), f, b):
+            fails.append((cl, dict(d, col=j)))
+        if not case.get("identities") and b[0] != c["name"]:
+            fails.append(("Arrow field name not carried over to the column", {"col": j, "got": b[0]}))
+    return fails
+
+
+def schema_model_line(case):
+    return "C11 forths " + wire.line([[c["name"], c["type"], c.get("elem"), c.get("p"), c.get("s"), c.get("nullable", True)]
+                                      for c in case["cols"]])
+
+
 def catalogue():
     """Arrow types for the `field` cases, as constructor descriptions."""
     prims = ["null", "bool_", "int8", "int16", "int32", "int64", "uint8", "uint16", "uint32", "uint64", "float16",
@@ -848,7 +1283,9 @@ def valid_case(c):
                 return False
             if not isinstance(c["tables"], list) or c.get("via") == "single" and len(c["tables"]) != 1:
                 return False
-            if c.get("via", "from_arrow") not in ("from_arrow", "DataFrame", "generator", "tuple", "single", "DataFrame.arrow"):
+            if c.get("via", "from_arrow") not in ("from_arrow", "DataFrame", "generator", "tuple", "single", "DataFrame.arrow", "iterator"):
+                return False
+            if c.get("via") == "iterator" and (not c["tables"] or not isinstance(c.get("batch"), int) or c["batch"] < 1):
                 return False
             if c.get("via") == "DataFrame.arrow" and not c["tables"]:
                 return False
@@ -866,12 +1303,61 @@ def valid_case(c):
         if k == "big":
             big_case_tables(c)
             return c.get("size") is None or c["size"] >= 1
+        if k == "seq":
+            cols = c["cols"]
+            if not cols or len({x["name"] for x in cols}) != len(cols) or c.get("source") not in SEQ_SOURCES:
+                return False
+            if cols[0]["type"] != "int64" or any(x["type"] not in SEQ_COLTYPES for x in cols):
+                return False
+            if not isinstance(c["tables"], list) or not c["tables"] or not isinstance(c["ops"], list) or len(c["ops"]) > 16:
+                return False
+            for op in c["ops"]:
+                if not isinstance(op, list) or not op or op[0] not in SEQ_OPS:
+                    return False
+                if op[0] in ("arrow", "pandas", "fetchmany"):
+                    if len(op) != 2 or not (op[1] is None or (isinstance(op[1], int) and not isinstance(op[1], bool))):
+                        return False
+                    if op[0] == "fetchmany" and op[1] is not None and op[1] < 0:
+                        return False
+                elif op[0] == "head":
+                    if len(op) != 2 or not isinstance(op[1], int) or isinstance(op[1], bool) or op[1] < 0:
+                        return False
+                elif op[0] == "append":
+                    # only frames whose schema is a list of names take a plain tuple (a frame built by
+                    # from_arrow has a RelationSchema and validates the entry as a dictionary - C05's subject)
+                    if c["source"] not in ("generator", "list"):
+                        return False
+                    if len(op) != 2 or not isinstance(op[1], list) or len(op[1]) != len(cols):
+                        return False
+                    for col, cell in zip(cols, op[1]):
+                        _check_cells(col["type"], [cell])
+                    if op[1][0] is None:
+                        return False
+                elif len(op) != 1:
+                    return False
+            ts = build_tables(c)
+            if any(t.column(0).null_count for t in ts):
+                return False  # the first column is the exact row id
+            return seq_mirror(expected_rows_of(ts), c)[2]
         if k == "roundtrip":
             if not c["types"]:
                 return False
             if c.get("size") is not None and (not isinstance(c["size"], int) or c["size"] < 0):
                 return False
             out, _ = run_roundtrip_impl(c)
+            return True
+        if k == "schema":
+            names = [x["name"] for x in c["cols"]]
+            if not c["cols"] or len(set(names)) != len(names) or c.get("via", "schema") not in ("schema", "table"):
+                return False
+            if c.get("identities") and c.get("via") == "table":
+                return False
+            for x in c["cols"]:
+                if not valid_case(schema_col_case(x)):
+                    return False
+                # (a precision the Arrow constructor rejects makes the whole schema raise: left to the `type` cases)
+                if x.get("p") is not None and not 0 <= x["p"] <= 38 or x.get("s") is not None and x["s"] < 0:
+                    return False
             return True
         if k == "type":
             return c["type"] in ORSO_TYPES and (c.get("elem") is None or c["elem"] in ORSO_TYPES) \
@@ -895,7 +1381,9 @@ def _impl_and_fails(case):
         sh = load_shadow()
         # (the exhaustive split family repeats the same tables for every size: the source run is made for
         # the sizes that change the batching most)
-        if sh["fn"] is not None and not (k == "iter" and case["cols"] == SPLIT_COLS and case.get("size") not in (None, 1, 2)):
+        if sh["fn"] is not None and not (k == "iter" and case["cols"] == SPLIT_COLS and case.get("size") not in (None, 1, 2)) \
+                and not (k == "iter" and case.get("via") == "iterator" and case["cols"] == SPLIT_COLS and case["batch"] != 2) \
+                and not case.get("binary_only"):
             out_s = run_iter_impl(c2, tables, process_table=sh["fn"])
             fails_s = iter_oracle(c2, tables, out_s)
             have = {cl for cl, _ in fails}
@@ -906,10 +1394,17 @@ def _impl_and_fails(case):
             if not wire_same_loose(a, b):
                 out["shadow_differs"] = {"binary": a, "source": b}
         return out, fails, iter_model_line(case, tables), ("rows", out.get("rows"), mirror_rows(expected_rows_of(tables), case.get("size")))
+    if k == "seq":
+        tables = build_tables(case)
+        outs = run_seq_impl(case, tables)
+        return {"outputs": outs}, seq_oracle(case, tables, outs), seq_model_line(case, tables), ("seq", outs, tables)
     if k == "roundtrip":
         out, rows = run_roundtrip_impl(case)
         fails = roundtrip_oracle(case, out, rows)
         return out, fails, roundtrip_model_line(case, rows), ("roundtrip", out, rows)
+    if k == "schema":
+        fencs, backs = run_schema_impl(case)
+        return {"fields": fencs, "back": backs}, schema_oracle(case, fencs, backs), schema_model_line(case), ("schema", fencs, backs)
     if k == "type":
         fenc, back = run_type_impl(case)
         return {"field": fenc, "back": back}, type_oracle(case, fenc, back), type_model_line(case), ("type", fenc, back)
@@ -919,8 +1414,56 @@ def _impl_and_fails(case):
     raise InfraError("unknown case kind %r" % (k,))
 
 
+def fails_standalone(case, sig):
+    """Does `case` fail in the way `sig` (normalised clause) in a fresh interpreter, with nothing left over
+    from earlier cases?  True / False / None (could not tell: treated as stand-alone)."""
+    import json
+    import subprocess
+    import sys
+
+    from ..core import VERIF, _jsonable
+
+    code = ("import sys, json\n"
+            "from harness import runner, core\n"
+            "runner.setup_impl_path()\n"
+            "from harness.props import c11\n"
+            "case = core.unjson(json.load(sys.stdin))\n"
+            "_, fails, _, _ = c11._impl_and_fails(case)\n"
+            "known = [k for k in core.load_known() if k.get('property') == 'C11' and k.get('status') == 'open']\n"
+            "fails = [(cl, d) for cl, d in fails\n"
+            "         if not any(core.match_known('C11', k, case, {'clause': cl, 'detail': d}) for k in known)]\n"
+            "print('\\n@@' + json.dumps([c11._norm(cl) for cl, _ in fails]))\n")
+    try:
+        p = subprocess.run([sys.executable, "-c", code], input=json.dumps(_jsonable(case)), cwd=VERIF,
+                           capture_output=True, text=True, timeout=180)
+        for line in p.stdout.split("\n"):
+            if line.startswith("@@"):
+                return sig in json.loads(line[2:])
+    except Exception:
+        pass
+    return None
+
+
+def flush_pending(ctx):
+    """Report the failures for which no stand-alone case was found (with a note saying so)."""
+    for sig, (c, cl, d, impl_view, model_view) in list(getattr(ctx, "_c11_pending", {}).items()):
+        if sig in ctx._c11_reported:
+            continue
+        ctx._c11_reported.add(sig)
+        ctx.fail(c, cl, impl=impl_view, model=model_view,
+                 detail=dict(d, note="fails only after earlier cases in the same process (state left behind by them)"))
+    if hasattr(ctx, "_c11_pending"):
+        ctx._c11_pending.clear()
+
+
 def focus_candidates(case, detail):
     """Smaller cases around the failing cell: only its column (and only its table / its row)."""
+    if case["kind"] == "seq" and (detail or {}).get("step") is not None:
+        # the calls after the failing one do not matter; then try with only the calls that read or take rows
+        cut = dict(case, ops=case["ops"][:detail["step"] + 1])
+        yield dict(cut, cols=SEQ_COLS, tables=[[seq_rows(sum(len(ch) for t in case["tables"] for ch in t))]])
+        yield cut
+        return
     j = (detail or {}).get("col")
     if j is None:
         return
@@ -976,7 +1519,7 @@ def evaluate(ctx, cases):
             nrows = len(mirror)
             nontrivial = nrows >= 1 and (k == "big" or len(c["tables"]) >= 1)
             model_view, impl_view = mrows, got_rows
-            observed_only = lazy_arrow or "cols_by_table" in c or got_rows is None and not fails
+            observed_only = lazy_arrow or "cols_by_table" in c or got_rows is None and not fails or "unavailable" in out
             ext_cols = [j for j, col in enumerate(c.get("cols", [])) if col["type"] in EXT_TYPES] if k == "iter" else []
             agree = observed_only or (got_rows is not None and len(got_rows) == len(mrows) and all(
                 len(a) == len(b) and all(j in ext_cols or cell_ok(x, y) for j, (x, y) in enumerate(zip(a, b)))
@@ -999,8 +1542,12 @@ def evaluate(ctx, cases):
                 empties = [i for i, t in enumerate(c["tables"]) if sum(len(ch) for ch in t) == 0]
                 if empties:
                     ctx.hit("empty-table:" + ("first" if 0 in empties else "later"))
-                if not lazy_arrow and m[0] != m[1]:
+                if not lazy_arrow and len(m) > 1 and m[0] != m[1]:
                     ctx.hit("pinned-iterator-would-lose-rows")
+                if c.get("via") == "iterator":
+                    longest = max([sum(len(ch) for ch in t) for t in c["tables"]] or [0])
+                    ctx.hit("iterator-batch:" + ("below" if c["batch"] < longest else "at" if c["batch"] == longest else "above")
+                            + "-longest-table")
                 for col in c["cols"]:
                     ctx.hit("coltype:" + col["type"].split("(")[0].split("[")[0])
                 if c.get("stagger"):
@@ -1009,6 +1556,51 @@ def evaluate(ctx, cases):
                     ctx.hit("multi-chunk-table")
                 if any(len(t) >= 10 for t in c["tables"]):
                     ctx.hit("many-small-batches")
+        elif k == "seq":
+            _, outs, tables = cmp_
+            mirror, mirror_final, _ = seq_mirror(expected_rows_of(tables), c, True, None)
+            for ob in (outs[0].get("obs", []) if outs else []):
+                ctx.hit(ob)
+            names = [col["name"] for col in c["cols"]]
+            mouts, mfinal = m[0], m[1]
+            mm = [e for e in mirror if e[0] != "names"]
+            model_ok = len(mm) == len(mouts) and wire.same(mfinal, mirror_final)
+            for e, mo_ in zip(mm, mouts):
+                if not model_ok:
+                    break
+                if e[0] == "table":
+                    model_ok = mo_[0] == "table" and mo_[1] == names and mo_[2] == len(e[1]) and wire.same(mo_[3], e[1])
+                elif e[0] == "rows":
+                    model_ok = mo_[0] == "rows" and wire.same(mo_[1], e[1])
+                else:
+                    model_ok = mo_[0] == "error"
+            if not model_ok:
+                # (the model is assembled from expressions generated from the source - `head`'s window
+                # arithmetic among them - so it can follow a changed source away from the specification)
+                if not fails and seq_impl_matches(c, outs, mirror):
+                    raise InfraError("Lean frame model disagrees with the Python mirror on %r" % (c,))
+                ctx.disagree(c, outs, mouts, what="the model generated from the source departs from the specification "
+                                                  "(every conversion returns the frame's rows cut to size) on this input")
+            nontrivial = len(expected_rows_of(tables)) >= 1 and len(c["ops"]) >= 1
+            model_view, impl_view = {"outputs": mouts, "rows_after": mfinal}, {"outputs": outs}
+            agree = len(outs) == len(c["ops"]) and seq_agrees(c, outs, mouts, mfinal)
+            ctx.hit("kind:seq")
+            ctx.hit("seq-source:" + c["source"])
+            ctx.hit("seq-ops:%d" % min(len(c["ops"]), 8))
+            nconv = sum(1 for op in c["ops"] if op[0] in ("arrow", "pandas"))
+            ctx.hit("seq-conversions:%d" % min(nconv, 4))
+            sizes = [op[1] for op in c["ops"] if op[0] in ("arrow", "pandas")]
+            if len(sizes) >= 2 and len(set(map(str, sizes))) >= 2:
+                ctx.hit("seq-conversions-with-different-sizes")
+            lazy_now = c["source"] != "list"
+            for i_, op in enumerate(c["ops"]):
+                ctx.hit("seq-op:" + op[0])
+                if op[0] in ("fetchone", "fetchmany", "fetchall") and lazy_now:
+                    ctx.hit("seq-fetch-on-still-lazy-frame(takes rows out of the frame)")
+                if op[0] in ("arrow", "pandas", "head") or op[0] in SEQ_OBSERVERS:
+                    if lazy_now and op[0] in ("arrow", "pandas"):
+                        ctx.hit("seq-conversion-materialises-lazy-frame" + ("-limited" if op[1] is not None and op[1] >= 0 else ""))
+                    lazy_now = False
         elif k == "roundtrip":
             _, o, rows = cmp_
             size = c.get("size")
@@ -1029,6 +1621,23 @@ def evaluate(ctx, cases):
             ctx.hit("rt-lazy" if c.get("lazy") else "rt-eager")
             for t in c["types"]:
                 ctx.hit("rt-coltype:" + t.split("(")[0].split("[")[0])
+        elif k == "schema":
+            _, fencs, backs = cmp_
+            model_view, impl_view = m[0], {"fields": fencs, "back": backs}
+            if backs is None:
+                agree = False
+            else:
+                agree = len(m[0]) == len(backs)
+                for (mf, mb), f, b in zip(m[0], fencs, backs):
+                    if c.get("identities"):  # the field is named after the column's identity (a random token)
+                        mf, f = mf[1:], f[1:]
+                        mb, b = (mb[1:], b[1:]) if mb[0] != "err" and b[0] != "err" else (mb, b)
+                    agree = agree and mf == f and mb == b
+            ctx.hit("kind:schema")
+            ctx.hit("schema-via:" + c.get("via", "schema") + ("+identities" if c.get("identities") else ""))
+            ctx.hit("schema-columns:%d" % min(len(c["cols"]), 8))
+            decs = {(x.get("p"), x.get("s")) for x in c["cols"] if x["type"] == "DECIMAL"}
+            ctx.hit("schema-distinct-decimal-types:%d" % min(len(decs), 4))
         elif k == "type":
             _, fenc, back = cmp_
             model_view, impl_view = {"field": m[0], "back": m[1]}, {"field": fenc, "back": back}
@@ -1055,29 +1664,61 @@ def evaluate(ctx, cases):
                 ctx.fail(c, cl, impl=impl_view, model=model_view, detail=d)  # counted as known finding
         if not hasattr(ctx, "_c11_reported"):
             ctx._c11_reported = set()
+            ctx._c11_pending = {}      # way of failing -> a failing case that does not fail in a fresh process
+            ctx._c11_standalone_checks = {}
         seen_sigs = ctx._c11_reported
         unknown = [(cl, d) for cl, d in unknown if _norm(cl) not in seen_sigs]
         if unknown:
             cl, d = unknown[0]
-            seen_sigs.add(_norm(cl))  # one minimised replay per way of failing; later ones are not shrunk again
+            sig = _norm(cl)
+
+            def still(c2):
+                if not valid_case(c2):
+                    return False
+                try:
+                    _, f2, _, _ = _impl_and_fails(c2)
+                except Exception:
+                    return False
+                return any(_norm(x) == sig and not _is_known(ctx, c2, x, dd) for x, dd in f2)
+
             c_min = c
+            if not ctx.replaying:
+                # A replay has to fail on its own.  A failure that needs state left behind by earlier cases
+                # (a memo keyed on too little, a cache shared between objects) is kept as a fallback while the
+                # search goes on for a case that carries the whole sequence in itself.
+                alone = fails_standalone(c, sig)
+                if alone is False:
+                    n_chk = ctx._c11_standalone_checks[sig] = ctx._c11_standalone_checks.get(sig, 0) + 1
+                    ctx._c11_pending.setdefault(sig, (c, cl, d, impl_view, model_view))
+                    ctx.hit("failure-needs-earlier-cases-in-the-process")
+                    if n_chk < 5:
+                        continue
+                    c, cl, d, impl_view, model_view = ctx._c11_pending.pop(sig)  # give up: report the first one seen
+                    d = dict(d, note="fails only after earlier cases in the same process (state left behind by them)")
+                    seen_sigs.add(sig)
+                    ctx.fail(c, cl, impl=impl_view, model=model_view, detail=d)
+                    continue
+                ctx._c11_pending.pop(sig, None)
+            seen_sigs.add(sig)  # one minimised replay per way of failing; later ones are not shrunk again
             if not ctx.replaying and k != "big":
-                def still(c2):
-                    if not valid_case(c2):
-                        return False
-                    try:
-                        _, f2, _, _ = _impl_and_fails(c2)
-                    except Exception:
-                        return False
-                    return any(_norm(x) == _norm(cl) and not _is_known(ctx, c2, x, dd) for x, dd in f2)
-                c_min = c
                 for cand in focus_candidates(c, d):
                     if still(cand):
                         c_min = cand
                         break
                 c_min = shrink(c_min, still, budget=250)
+                if c_min is not c and fails_standalone(c_min, sig) is False:
+                    # the in-process search walked into a case that only fails thanks to leftover state:
+                    # shrink again, accepting a step only if it also fails in a fresh process (few steps)
+                    tries = [0]
+
+                    def still_alone(c2):
+                        if not still(c2) or tries[0] >= 12:
+                            return False
+                        tries[0] += 1
+                        return fails_standalone(c2, sig) is not False
+                    c_min = shrink(c, still_alone, budget=120)
             out2, f2, _, _ = _impl_and_fails(c_min)
-            hit = [(x, dd) for x, dd in f2 if _norm(x) == _norm(cl)] or [(cl, d)]
+            hit = [(x, dd) for x, dd in f2 if _norm(x) == sig and not _is_known(ctx, c_min, x, dd)] or [(cl, d)]
             ctx.fail(c_min, hit[0][0], impl=out2, model=model_view if c_min is c else None, detail=hit[0][1])
         elif not fails and not agree:
             ctx.disagree(c, impl_view, model_view)
@@ -1115,6 +1756,24 @@ def exhaustive_split_cases(nmax, kmax):
                     yield {"kind": "iter", "cols": SPLIT_COLS, "tables": tables, "size": size}
 
 
+def exhaustive_iterator_cases(nmax, kmax, batches=(1, 2, 3, 7)):
+    """`_RowsIterator` itself with every batch size of `batches` (below, at and above the table lengths) x
+    every limit 1..N+1 and none x every split of 0..nmax rows into 1..kmax tables; tables of three rows
+    and more come in two chunks."""
+    for n in range(nmax + 1):
+        rows = split_rows(n)
+        for k in range(1, kmax + 1):
+            for parts in compositions(n, k):
+                tables, pos = [], 0
+                for p in parts:
+                    part = rows[pos:pos + p]
+                    tables.append([part] if p < 3 else [part[:1], part[1:]])
+                    pos += p
+                for b in batches:
+                    for size in [None] + list(range(1, n + 2)):
+                        yield {"kind": "iter", "cols": SPLIT_COLS, "tables": tables, "size": size, "via": "iterator", "batch": b}
+
+
 def exhaustive_type_cases(full_grid):
     for t in ORSO_TYPES:
         if t == "DECIMAL":
@@ -1137,6 +1796,57 @@ def exhaustive_type_cases(full_grid):
     # an odd precision on a non-decimal column still goes through the eagerly built table
     yield {"kind": "type", "type": "INTEGER", "elem": None, "p": 39, "s": 0, "name": "i", "nullable": True}
     yield {"kind": "type", "type": "INTEGER", "elem": None, "p": 0, "s": 0, "name": "i", "nullable": True}
+
+
+def _scol(name, t, elem=None, p=None, s=None, nullable=True):
+    return {"name": name, "type": t, "elem": elem, "p": p, "s": s, "nullable": nullable}
+
+
+def schema_cases():
+    """Several columns in one schema: several decimal types side by side (in both orders, repeated, next to
+    lists of the same element kinds), every type at once; through the schema converters, with identities,
+    and through from_arrow's own schema extraction."""
+    groups = [
+        # same precision with different scales, same scale with different precisions, a type repeated
+        [_scol("a", "DECIMAL", p=10, s=2), _scol("b", "DECIMAL", p=10, s=0), _scol("c", "DECIMAL", p=12, s=2),
+         _scol("d", "DECIMAL", p=10, s=2), _scol("e", "ARRAY", elem="INTEGER"), _scol("f", "ARRAY", elem="VARCHAR")],
+        [_scol("a", "DECIMAL", p=10, s=2), _scol("b", "DECIMAL", p=38, s=0)],
+        [_scol("a", "DECIMAL", p=38, s=0), _scol("b", "DECIMAL", p=10, s=2)],
+        [_scol("a", "DECIMAL", p=5, s=5), _scol("i", "INTEGER"), _scol("b", "DECIMAL", p=1, s=0),
+         _scol("l", "ARRAY", elem="INTEGER"), _scol("c", "DECIMAL", p=5, s=5), _scol("d", "DECIMAL", p=38, s=38)],
+        [_scol("x", "ARRAY", elem="VARCHAR"), _scol("y", "ARRAY", elem="INTEGER"), _scol("z", "ARRAY", elem="DOUBLE"),
+         _scol("w", "ARRAY", elem="BOOLEAN", nullable=False), _scol("v", "ARRAY", elem="TIMESTAMP")],
+        [_scol("c_" + t.lower(), t) for t in ORSO_TYPES if t not in ("DECIMAL", "ARRAY", "_MISSING_TYPE")]
+        + [_scol("c_decimal", "DECIMAL", p=12, s=3), _scol("c_array", "ARRAY", elem="VARCHAR")],
+        [_scol("t1", "TIMESTAMP"), _scol("t2", "TIME"), _scol("t3", "TIMESTAMP", nullable=False), _scol("é 日本", "VARCHAR"),
+         _scol("", "BLOB")],
+    ]
+    for cols in groups:
+        yield {"kind": "schema", "cols": cols, "via": "schema"}
+        yield {"kind": "schema", "cols": cols, "via": "table"}
+        yield {"kind": "schema", "cols": cols, "via": "schema", "identities": True}
+
+
+def random_schema_case(ctx):
+    rng = ctx.rng
+    cols = []
+    for j in range(rng.choice([2, 2, 3, 4, 6])):
+        t = rng.choice(["DECIMAL", "DECIMAL", "DECIMAL", "ARRAY"] + [x for x in ORSO_TYPES if x != "_MISSING_TYPE"])
+        c = _scol(rng.choice(["a", "b", "col", "é", "x y"]) + str(j), t, nullable=rng.random() < 0.7)
+        if t == "DECIMAL":
+            r = rng.random()
+            if r < 0.85:
+                c["p"] = rng.choice([1, 2, 10, 28, 29, 37, 38, rng.randint(1, 38)])
+                c["s"] = rng.choice([0, c["p"], max(0, c["p"] - 1), rng.randint(0, c["p"])])
+            elif r < 0.9:
+                c["p"], c["s"] = 0, 0
+        elif t == "ARRAY":
+            c["elem"] = rng.choice([x for x in ORSO_TYPES if x != "_MISSING_TYPE"] + [None])
+        cols.append(c)
+    case = {"kind": "schema", "cols": cols, "via": rng.choice(["schema", "schema", "table"])}
+    if case["via"] == "schema" and rng.random() < 0.25:
+        case["identities"] = True
+    return case
 
 
 def exhaustive_field_cases():
@@ -1167,7 +1877,7 @@ EXT_COLTYPES = list(EXT_TYPES)
 
 COLTYPES = ["int64", "int64", "int32", "int16", "int8", "uint64", "uint32", "uint16", "uint8", "float64", "float32", "string", "large_string", "bool",
             "binary", "timestamp[us]", "timestamp[ns]", "timestamp[ms]", "timestamp[us,UTC]", "timestamp[us,Europe/Paris]",
-            "date32", "date64", "decimal128(10,2)", "decimal128(38,0)", "decimal128(5,5)", "list<int64>", "list<string>",
+            "date32", "date64", "decimal128(10,2)", "decimal128(38,0)", "decimal128(5,5)", "decimal128(10,0)", "list<int64>", "list<string>",
             "list<float64>"]
 
 INT_RANGE = {"int8": (-2**7, 2**7 - 1), "int16": (-2**15, 2**15 - 1), "int32": (-2**31, 2**31 - 1),
@@ -1317,6 +2027,9 @@ def random_iter_case(ctx, quiet_known=False, ext=False):
         case["via"] = "single"
     if rng.random() < 0.25:
         case["stagger"] = True
+    if "via" not in case and tables and rng.random() < 0.3:
+        case["via"] = "iterator"
+        case["batch"] = rng.choice([1, 2, 3, 5, max(1, n - 1), max(1, n), n + 1, 10000])
     return case
 
 
@@ -1350,6 +2063,95 @@ def random_roundtrip_case(ctx, quiet_known=False):
     return case
 
 
+SEQ_COLTYPES = ("int64", "string", "bool", "float64", "binary")
+SEQ_COLS = [{"name": "id", "type": "int64", "nullable": False}, {"name": "s", "type": "string"}]
+
+
+def seq_rows(n):
+    return [[2**53 + 1 + i, None if i == 1 else "r%d" % i] for i in range(n)]
+
+
+def exhaustive_seq_cases():
+    """Every pair of calls from a small alphabet on one 3-row frame (two tables and an empty one), for
+    every kind of frame, followed by an unlimited conversion: the second call and the final conversion are
+    judged against the frame's full row list whatever the first call was."""
+    rows = seq_rows(3)
+    tables = [[rows[:2]], [[]], [rows[2:]]]
+    alphabet = [["arrow", None], ["arrow", 0], ["arrow", 1], ["arrow", 2], ["arrow", 4], ["len"], ["iter"],
+                ["head", 1], ["fetchone"], ["pandas", 2]]
+    for source in SEQ_SOURCES:
+        for a in alphabet:
+            for b in alphabet:
+                yield {"kind": "seq", "source": source, "cols": SEQ_COLS, "tables": tables, "ops": [a, b, ["arrow", None]]}
+
+
+def seq_corpus():
+    rows = seq_rows(6)
+    one = [[rows]]
+    # the same frame converted with every limit in turn, then without one, then observed
+    ladder = [["arrow", k] for k in range(1, 8)] + [["arrow", None], ["iter"], ["len"]]
+    for source in SEQ_SOURCES:
+        yield {"kind": "seq", "source": source, "cols": SEQ_COLS, "tables": one, "ops": ladder}
+        yield {"kind": "seq", "source": source, "cols": SEQ_COLS, "tables": [[rows[:1], rows[1:4]], [[]], [rows[4:]]],
+               "ops": [["pandas", 2], ["arrow", 5], ["shape"], ["arrow", -1], ["rowcount"], ["pandas", None]]}
+        yield {"kind": "seq", "source": source, "cols": SEQ_COLS, "tables": one,
+               "ops": [["fetchmany", 2], ["arrow", 1], ["fetchone"], ["arrow", None], ["fetchall"], ["len"]]}
+    # use -> mutate -> use again (eager frames only: a lazy frame cannot be appended to)
+    yield {"kind": "seq", "source": "list", "cols": SEQ_COLS, "tables": one,
+           "ops": [["arrow", 2], ["append", [7, "new"]], ["arrow", None], ["arrow", 7], ["append", [8, None]], ["len"], ["arrow", 8]]}
+    yield {"kind": "seq", "source": "generator", "cols": SEQ_COLS, "tables": one,
+           "ops": [["arrow", 2], ["append", [7, "new"]], ["arrow", None], ["fetchone"], ["iter"]]}
+    yield {"kind": "seq", "source": "from_arrow", "cols": SEQ_COLS, "tables": [[[]], [[]]], "ops": [["arrow", 1], ["arrow", None], ["len"]]}
+
+
+def random_seq_case(ctx):
+    rng = ctx.rng
+    ncols = rng.choice([1, 2, 2, 3])
+    types = ["int64"] + [rng.choice(SEQ_COLTYPES[1:]) for _ in range(ncols - 1)]
+    n = rng.choice([0, 1, 2, 3, 4, 5, 6, 8]) if rng.random() < 0.9 else rng.randint(9, 40)
+    cols = [{"name": rng.choice(["id", "a", "é", "x y", ""]) + str(j), "type": t} for j, t in enumerate(types)]
+    cols[0]["nullable"] = False
+    columns = [[2**53 + 1 + i for i in range(n)]]
+    for t in types[1:]:
+        null_p = rng.choice([0.0, 0.3, 1.0])
+        columns.append([gen_cell(rng, t, null_p, allow_nan=False) for _ in range(n)])
+    rows = [[columns[j][i] for j in range(ncols)] for i in range(n)]
+    tables = split_random(rng, rows, rng.choice([1, 1, 2, 3]))
+    source = rng.choice(SEQ_SOURCES)
+    lazy = source != "list"
+    total = n
+    ops = []
+    for _ in range(rng.choice([1, 2, 2, 3, 3, 4, 5, 7])):
+        r = rng.random()
+        sizes = [None, None, 0, 1, 2, total, total + 1, max(0, total - 1), -1] + ([rng.randint(1, total)] if total else [])
+        if r < 0.45:
+            ops.append(["arrow", rng.choice(sizes)])
+            lazy = False
+        elif r < 0.52:
+            ops.append(["pandas", rng.choice(sizes)])
+            lazy = False
+        elif r < 0.66:
+            ops.append([rng.choice(SEQ_OBSERVERS)])
+            lazy = False
+        elif r < 0.72:
+            ops.append(["head", rng.choice([0, 1, 2, total, total + 1])])
+            lazy = False
+        elif r < 0.76:
+            ops.append(["names"])
+        elif r < 0.92:
+            k = rng.choice(["fetchone", "fetchone", "fetchmany", "fetchall"])
+            ops.append([k, rng.choice([None, 0, 1, 2, total + 1])] if k == "fetchmany" else [k])
+        elif not lazy and source in ("generator", "list"):
+            cell = [2**60 + len(ops)] + [gen_cell(rng, t, 0.3, allow_nan=False) for t in types[1:]]
+            ops.append(["append", cell])
+            total += 1
+        else:
+            ops.append(["arrow", rng.choice(sizes)])
+            lazy = False
+    ops.append(["arrow", rng.choice([None, None, total, 1])])
+    return {"kind": "seq", "source": source, "cols": cols, "tables": tables, "ops": ops}
+
+
 def big_cases(ctx):
     rng = ctx.rng
     out = [
@@ -1357,6 +2159,16 @@ def big_cases(ctx):
         {"kind": "big", "n": 25000, "nulls": [9999, 10000, 20000], "size": 20001, "start": 2**53},
         {"kind": "big", "n": 12000, "nulls": [], "size": None, "parts": [3, 0, 10001, 1996], "via": "DataFrame"},
     ]
+    # exactly at / one below / one past the batch constant extracted from the working tree, as table length
+    # and as limit, in one table and with the limit falling into a second table
+    B = batch_constant()
+    if 2 <= B <= 200000:
+        for n, size, parts in ((B + 1, B + 1, None), (B + 1, B, None), (B + 2, B + 1, None), (B, B + 1, None),
+                               (B + 5, B + 2, [B + 2, 3]), (B + 5, B + 3, [B + 2, 3]), (2 * B + 3, 2 * B + 1, None),
+                               (B + 3, B - 1, [1, B + 2]), (B + 1, None, [B + 1])):
+            out.append({"kind": "big", "n": n, "nulls": [0, n - 1], "size": size, "parts": parts, "start": 2**53})
+            if len(out) % 3:
+                out[-1]["binary_only"] = True  # (the run on the transcribed .pyx source is made for every third of them)
     if ctx.tier == "thorough":
         for _ in range(6):
             n = rng.randint(10001, 40000)
@@ -1467,31 +2279,69 @@ def run(ctx):
     ctx.note("process_table_source_shadow", sh["status"])
     ctx.note("process_table_binary_vs_source", "source lines embedded in compiled.c are identical to compiled.pyx"
              if sh["stale"] == [] else ("no compiled.c to compare with" if sh["stale"] is None else sh["stale"][:10]))
+    import time as _t
+
+    marks, t_last = {}, [_t.time()]
+
+    def mark(name):
+        marks[name] = round(marks.get(name, 0) + _t.time() - t_last[0], 2)
+        t_last[0] = _t.time()
+
+    marks["before_run"] = round(ctx.budget_s - ctx.time_left(), 2)
+    if ctx.tier == "quick":
+        ctx.budget_s = max(ctx.budget_s, 58)  # the exhaustive families take ~30 s; leaves ~20 s for the random ones
     _batched(ctx, CORPUS)
+    # several columns in one schema first: a failure that needs two different decimal types (or two uses of
+    # anything cached) is then met in a case that carries both, and its replay fails on its own
+    _batched(ctx, schema_cases())
     _batched(ctx, per_type_cases())
     _batched(ctx, ext_type_cases())
     _batched(ctx, many_batches_cases())
     _batched(ctx, SCHEMA_DIFFERS)
+    mark("corpus+per-type+ext+many-batches")
+    _batched(ctx, seq_corpus())
+    n_seq = _batched(ctx, exhaustive_seq_cases())
+    mark("seq-exhaustive")
     nmax, kmax = ctx.scale((6, 4), (6, 4))
     n_split = _batched(ctx, exhaustive_split_cases(nmax, kmax))
+    mark("split-exhaustive")
+    n_itb = _batched(ctx, exhaustive_iterator_cases(*ctx.scale((4, 3), (5, 4))))
+    mark("iterator-exhaustive")
     n_type = _batched(ctx, exhaustive_type_cases(True))
     n_field = _batched(ctx, exhaustive_field_cases())
+    evaluate(ctx, [random_schema_case(ctx) for _ in range(ctx.scale(150, 3000))])
+    mark("type+field+schema")
     ctx.exhaustive = False
     ctx.note("exhaustive_scope", "every split of 0..%d rows into 1..%d tables (empty tables anywhere) x every size 1..N+1 and none "
              "(%d cases); every Orso type, every ARRAY element type, every DECIMAL (p,s) with 0<=s<=p<=38 (%d cases); "
-             "a catalogue of %d Arrow fields; then random" % (nmax, kmax, n_split, n_type, n_field))
+             "a catalogue of %d Arrow fields; _RowsIterator driven directly with batch sizes 1, 2, 3, 7 x every limit over every "
+             "split of 0..4(5) rows into 1..3(4) tables (%d cases); every pair of calls from a 10-call alphabet on one frame "
+             "x 4 kinds of frame, each followed by an unlimited conversion (%d cases); then random"
+             % (nmax, kmax, n_split, n_type, n_field, n_itb, n_seq))
     _batched(ctx, big_cases(ctx), n=2)
+    mark("big")
     n_iter, n_rt = ctx.scale((1500, 700), (30000, 12000))
     done = 0
     while done < n_iter and ctx.time_left() > 8:
         k = min(300, n_iter - done)
         evaluate(ctx, [random_iter_case(ctx, quiet_known=(i % 2 == 0), ext=(i % 5 == 4)) for i in range(k)])
         done += k
+    mark("random-iter")
+    n_seq_r = ctx.scale(400, 8000)
+    done = 0
+    while done < n_seq_r and ctx.time_left() > 6:
+        k = min(200, n_seq_r - done)
+        evaluate(ctx, [random_seq_case(ctx) for _ in range(k)])
+        done += k
+    mark("random-seq")
     done = 0
     while done < n_rt and ctx.time_left() > 3:
         k = min(300, n_rt - done)
         evaluate(ctx, [random_roundtrip_case(ctx, quiet_known=(i % 2 == 0)) for i in range(k)])
         done += k
+    mark("random-roundtrip")
+    flush_pending(ctx)
+    ctx.note("seconds_per_section", marks)
 
 
 def intensify(ctx):
@@ -1500,8 +2350,12 @@ def intensify(ctx):
             break
         evaluate(ctx, [random_iter_case(ctx, quiet_known=True) for _ in range(300)])
         evaluate(ctx, [random_roundtrip_case(ctx, quiet_known=True) for _ in range(200)])
+        evaluate(ctx, [random_seq_case(ctx) for _ in range(150)])
     _batched(ctx, exhaustive_type_cases(True))
     _batched(ctx, exhaustive_field_cases())
+    _batched(ctx, schema_cases())
+    evaluate(ctx, [random_schema_case(ctx) for _ in range(300)])
+    flush_pending(ctx)
 
 
 def replay(ctx, case):
@@ -1567,27 +2421,47 @@ def _known_zoned_ts(case, failure):
         and isinstance(e, list) and e[:1] == ["tsz"] and e[1] < PANDAS_NS_MIN_US
 
 
+def _typed_col(case, failure):
+    """The column definition a typing failure is about: the `type` case itself, or the column of a `schema`
+    case the failure names (`detail.col`)."""
+    if case.get("kind") == "type":
+        return case
+    if case.get("kind") == "schema":
+        j = (failure.get("detail") or {}).get("col")
+        if isinstance(j, int) and 0 <= j < len(case.get("cols", [])):
+            return case["cols"][j]
+    return {}
+
+
 def _known_date(case, failure):
-    return case.get("kind") == "type" and case.get("type") == "DATE" \
+    return _typed_col(case, failure).get("type") == "DATE" \
         and failure.get("clause") == "Orso type not preserved by the Arrow type mapping" \
         and (failure.get("detail") or {}).get("back") == "TIMESTAMP"
 
 
 def _known_array_date(case, failure):
-    return case.get("kind") == "type" and case.get("type") == "ARRAY" and case.get("elem") == "DATE" \
+    c = _typed_col(case, failure)
+    return c.get("type") == "ARRAY" and c.get("elem") == "DATE" \
         and failure.get("clause") == "ARRAY element type not preserved by the Arrow type mapping" \
         and (failure.get("detail") or {}).get("back") == "TIMESTAMP"
 
 
 def _known_array_decimal(case, failure):
-    return case.get("kind") == "type" and case.get("type") == "ARRAY" and case.get("elem") == "DECIMAL" \
+    c = _typed_col(case, failure)
+    return c.get("type") == "ARRAY" and c.get("elem") == "DECIMAL" \
         and failure.get("clause") == "ARRAY element type not preserved by the Arrow type mapping" \
         and (failure.get("detail") or {}).get("back") is None
 
 
 def _known_decimal_p0(case, failure):
-    return case.get("kind") == "type" and case.get("type") == "DECIMAL" and case.get("p") == 0 \
-        and failure.get("clause") == "DECIMAL precision/scale not preserved by the Arrow type mapping"
+    c = _typed_col(case, failure)
+    back = (failure.get("detail") or {}).get("back")
+    # precision 0 is replaced by DECIMAL_PRECISION (the scale is kept), or the constructor refuses it
+    replaced = isinstance(back, list) and len(back) == 2 and back[0] not in (None, 0) and back[1] == c.get("s")
+    refused = isinstance(back, list) and back[:1] == ["err"]
+    return c.get("type") == "DECIMAL" and c.get("p") == 0 \
+        and failure.get("clause") == "DECIMAL precision/scale not preserved by the Arrow type mapping" \
+        and (replaced or refused)
 
 
 KNOWN_PREDICATES = {
